@@ -156,6 +156,8 @@ impl Default for U64 { fn default() -> (r: Self) ensures r.v == 0 { U64 { v: 0 }
 /// Stand-in for zerocopy::IntoBytes: `raw()` is the specified in-memory image.
 pub trait IntoBytes: Sized {
     spec fn raw(&self) -> Seq<u8>;
+    /// size of the in-memory image (sum of the packed field widths)
+    spec fn size_spec() -> nat;
     /// zerocopy: `as_bytes()` is the object's memory, so its length is size_of::<Self>()
     fn as_bytes(&self) -> (r: &[u8])
         ensures r@ == self.raw(), r@.len() == vstd::layout::size_of::<Self>();
@@ -168,13 +170,13 @@ pub trait IntoBytes: Sized {
 pub trait Immutable {}
 pub trait FromBytes {}
 
-impl IntoBytes for u8  { open spec fn raw(&self) -> Seq<u8> { seq![*self] }  #[verifier::external_body] fn as_bytes(&self) -> (r: &[u8]) { unimplemented!() } }
-impl IntoBytes for u16 { open spec fn raw(&self) -> Seq<u8> { le16(*self) } #[verifier::external_body] fn as_bytes(&self) -> (r: &[u8]) { unimplemented!() } }
-impl IntoBytes for u32 { open spec fn raw(&self) -> Seq<u8> { le32(*self) } #[verifier::external_body] fn as_bytes(&self) -> (r: &[u8]) { unimplemented!() } }
-impl IntoBytes for u64 { open spec fn raw(&self) -> Seq<u8> { le64(*self) } #[verifier::external_body] fn as_bytes(&self) -> (r: &[u8]) { unimplemented!() } }
-impl IntoBytes for U16 { open spec fn raw(&self) -> Seq<u8> { le16(self.v) } #[verifier::external_body] fn as_bytes(&self) -> (r: &[u8]) { unimplemented!() } }
-impl IntoBytes for U32 { open spec fn raw(&self) -> Seq<u8> { le32(self.v) } #[verifier::external_body] fn as_bytes(&self) -> (r: &[u8]) { unimplemented!() } }
-impl IntoBytes for U64 { open spec fn raw(&self) -> Seq<u8> { le64(self.v) } #[verifier::external_body] fn as_bytes(&self) -> (r: &[u8]) { unimplemented!() } }
+impl IntoBytes for u8  { open spec fn size_spec() -> nat { 1 } open spec fn raw(&self) -> Seq<u8> { seq![*self] }  #[verifier::external_body] fn as_bytes(&self) -> (r: &[u8]) { unimplemented!() } }
+impl IntoBytes for u16 { open spec fn size_spec() -> nat { 2 } open spec fn raw(&self) -> Seq<u8> { le16(*self) } #[verifier::external_body] fn as_bytes(&self) -> (r: &[u8]) { unimplemented!() } }
+impl IntoBytes for u32 { open spec fn size_spec() -> nat { 4 } open spec fn raw(&self) -> Seq<u8> { le32(*self) } #[verifier::external_body] fn as_bytes(&self) -> (r: &[u8]) { unimplemented!() } }
+impl IntoBytes for u64 { open spec fn size_spec() -> nat { 8 } open spec fn raw(&self) -> Seq<u8> { le64(*self) } #[verifier::external_body] fn as_bytes(&self) -> (r: &[u8]) { unimplemented!() } }
+impl IntoBytes for U16 { open spec fn size_spec() -> nat { 2 } open spec fn raw(&self) -> Seq<u8> { le16(self.v) } #[verifier::external_body] fn as_bytes(&self) -> (r: &[u8]) { unimplemented!() } }
+impl IntoBytes for U32 { open spec fn size_spec() -> nat { 4 } open spec fn raw(&self) -> Seq<u8> { le32(self.v) } #[verifier::external_body] fn as_bytes(&self) -> (r: &[u8]) { unimplemented!() } }
+impl IntoBytes for U64 { open spec fn size_spec() -> nat { 8 } open spec fn raw(&self) -> Seq<u8> { le64(self.v) } #[verifier::external_body] fn as_bytes(&self) -> (r: &[u8]) { unimplemented!() } }
 impl Immutable for u8 {} impl Immutable for u16 {} impl Immutable for u32 {} impl Immutable for u64 {}
 impl FromBytes for u8 {} impl FromBytes for u16 {} impl FromBytes for u32 {} impl FromBytes for u64 {}
 
@@ -562,3 +564,32 @@ pub proof fn lemma_mod_chain5b(a0: int, x1: int, x2: int, x3: int, x4: int, x5: 
 
 /// every byte of the image is zero (the derived Default of a packed structure)
 pub open spec fn is_zero_image(s: Seq<u8>) -> bool { forall|i: int| 0 <= i < s.len() ==> s[i] == 0u8 }
+
+/// D25: `core::mem::size_of::<T>()` of a packed structure is the sum of its field widths
+/// (checked against rustc by the generated Kani layout harness of T)
+#[verifier::external_body]
+pub fn packed_size_of<T: IntoBytes>() -> (r: usize)
+    ensures r == T::size_spec()
+{ core::mem::size_of::<T>() }
+
+pub proof fn lemma_sum_zeros(n: nat)
+    ensures sum(zeros(n)) == 0
+    decreases n
+{
+    reveal(sum);
+    if n > 0 {
+        assert(zeros(n).drop_last() =~= zeros((n - 1) as nat));
+        lemma_sum_zeros((n - 1) as nat);
+    }
+}
+
+pub proof fn lemma_mod_add_chain4(a0: int, x1: int, x2: int, x3: int, x4: int, a1: int, a2: int, a3: int, a4: int)
+    requires a1 == (a0 + x1) % 256, a2 == (a1 + x2) % 256, a3 == (a2 + x3) % 256, a4 == (a3 + x4) % 256
+    ensures (a4 - (a0 + x1 + x2 + x3 + x4)) % 256 == 0
+{
+    let d1 = a1 - (a0 + x1); let d2 = a2 - (a1 + x2); let d3 = a3 - (a2 + x3); let d4 = a4 - (a3 + x4);
+    assert(d1 % 256 == 0 && d2 % 256 == 0 && d3 % 256 == 0 && d4 % 256 == 0);
+    assert(a4 - (a0 + x1 + x2 + x3 + x4) == d1 + d2 + d3 + d4);
+    assert((d1 + d2) % 256 == 0);
+    assert((d1 + d2 + d3) % 256 == 0);
+}
